@@ -1,6 +1,6 @@
 (* C02 - RPE values over exactly the selected pairs. Proofs in Evo.MetricsProofs. *)
 From Coq Require Import Reals List.
-From Evo Require Import Num Linalg LinalgR Lie LieProofs Metrics MetricsProofs Filters RpeSelect NpDsl MetricsTie.
+From Evo Require Import Num Linalg LinalgR Lie LieProofs Metrics MetricsProofs Filters RpeSelect NpDsl MetricsTieRpe.
 From EvoGen Require StepsC02.
 From EvoGen Require Import LieGen MetricsGen.
 Import ListNotations.
